@@ -218,6 +218,14 @@ void snoopy_tsrm_atfork_child ()
         if ((NULL != tData) && (0 == pthread_equal(myThreadId, tData->threadId))) {
             snoopy_util_list_remove(snoopy_tsrm_threadRepo, curNode);
             free(tData->inputdatastorage);
+            if (NULL != tData->configuration) {
+                // The strings that other thread has parsed out of the config file belong to it, too
+                if (SNOOPY_TRUE == tData->configuration->message_format_malloced)      free(tData->configuration->message_format);
+                if (SNOOPY_TRUE == tData->configuration->filter_chain_malloced)        free(tData->configuration->filter_chain);
+                if (SNOOPY_TRUE == tData->configuration->output_malloced)              free(tData->configuration->output);
+                if (SNOOPY_TRUE == tData->configuration->output_arg_malloced)          free(tData->configuration->output_arg);
+                if (SNOOPY_TRUE == tData->configuration->syslog_ident_format_malloced) free(tData->configuration->syslog_ident_format);
+            }
             free(tData->configuration);
             free(tData);
         }
